@@ -1,4 +1,5 @@
 import PraatModel.Textgrid
+import PraatModel.Quote
 
 /-!
 # The save path of textgrid_io.py: `_prepTgForSaving`, `_fillInBlanks`, `_removeUltrashortIntervals`, the text emitters
@@ -98,8 +99,13 @@ def prepTg (g : Tg α) (blanks : Bool) (minOv maxOv : Option α) (minLen : Optio
 def numToStr (trunc : α → α) (reprOf intOf : α → String) (x : α) : String :=
   if Tm.close14 x (trunc x) then intOf x else reprOf x
 
-/-- `utils.escapeQuotes` -/
-def escapeQuotes (s : String) : String := s.replace "\"" "\"\""
+/-- `utils.escapeQuotes`: `text.replace('"', '""')`, as the structurally recursive `escapeL` of Quote.lean (the
+library's `String.replace "\"" "\"\""` computes the same string — `#guard`s below, and the emitted text is compared with
+CPython byte for byte on every run; the list form is what the whole-file theorems of Props/C01Full.lean reason about) -/
+def escapeQuotes (s : String) : String := String.ofList (escapeL s.toList)
+
+#guard ["", "\"", "a\"b", "\"\"", "x\"\"\"y\"", "\"IntervalTier\"", "no quote\nline"].all fun s =>
+  escapeQuotes s == s.replace "\"" "\"\""
 
 /-- `_tgToShortTextForm` -/
 def tgToShort (num : α → String) (g : Tg α) (lo hi : α) : String :=
